@@ -19,6 +19,7 @@
 EXTENDS Integers, Sequences, FiniteSets, TLC
 
 CONSTANTS N, MaxOps, WithTxn,
+          WithPad,     \* TRUE: UPDATEs that switch the pad of runs of rows between 200 bytes and 3000 bytes (out-of-line / TOAST values)
           WithDDL      \* TRUE: the table starts WITHOUT secondary indexes; CREATE INDEX / DROP INDEX are steps (C10, C21 at scale)
 Ids == 1..N
 NoRow == -1
@@ -26,9 +27,10 @@ NoRow == -1
 VARIABLES a,        \* [Ids -> NoRow or the row's a value]
           txn,      \* <<>> or <<snapshot of a at BEGIN>> (one handle, no savepoints)
           idx,      \* secondary indexes that exist: a subset of {"a", "pad", "c"}
+          big,      \* ids of the rows whose pad is the 3000-byte value (stored out of line); a subset of the present ids
           nops, hist
-vars == <<a, txn, idx, nops, hist>>
-view == <<a, txn, idx, nops>>
+vars == <<a, txn, idx, big, nops, hist>>
+view == <<a, txn, idx, big, nops>>
 
 Present == {i \in Ids : a[i] # NoRow}
 InRange(lo, hi) == {i \in Present : lo <= i /\ i <= hi}
@@ -45,7 +47,7 @@ Probes == [count |-> Card(Present),
 \* with WithDDL the table already holds rows 1..600 (inserted in ascending order before the first step), so that every
 \* CREATE INDEX of a behaviour builds an index of several leaves from existing rows
 Prefilled == IF WithDDL THEN 600 ELSE 0
-Init == a = [i \in Ids |-> IF i <= Prefilled THEN i % 10 ELSE NoRow] /\ txn = <<>> /\ nops = 0 /\ hist = <<>> /\ idx = IF WithDDL THEN {} ELSE {"a"}
+Init == a = [i \in Ids |-> IF i <= Prefilled THEN i % 10 ELSE NoRow] /\ txn = <<>> /\ nops = 0 /\ hist = <<>> /\ idx = (IF WithDDL THEN {} ELSE {"a"}) /\ big = {}
 
 ProbesOf(f) == [count |-> Card({i \in Ids : f[i] # NoRow}),
                 pts |-> [i \in ProbeIds \cap Ids |-> f[i]],
@@ -54,11 +56,14 @@ ProbesOf(f) == [count |-> Card({i \in Ids : f[i] # NoRow}),
                 r1 |-> Card({i \in 60..70 : i \in Ids /\ f[i] # NoRow}),
                 r2 |-> Card({i \in 120..260 : i \in Ids /\ f[i] # NoRow}),
                 r3 |-> Card({i \in (N - 5)..N : f[i] # NoRow})]
-StepX(op, n, newa, newtxn, newidx) ==
-                     /\ nops < MaxOps /\ a' = newa /\ txn' = newtxn /\ idx' = newidx /\ nops' = nops + 1
+StepY(op, n, newa, newtxn, newidx, newbig) ==
+                     /\ nops < MaxOps /\ a' = newa /\ txn' = newtxn /\ idx' = newidx /\ big' = newbig /\ nops' = nops + 1
                      /\ hist' = Append(hist, [op |-> op, n |-> n, intxn |-> newtxn # <<>>, idx |-> newidx,
                                              rows |-> {<<i, newa[i]>> : i \in {j \in Ids : newa[j] # NoRow}},
+                                             nbig |-> Card(newbig), bigpts |-> [i \in {1, 64, 129} |-> i \in newbig],
                                              probes |-> ProbesOf(newa)])
+\* a deleted row is no longer big; a re-inserted row has the 200-byte pad
+StepX(op, n, newa, newtxn, newidx) == StepY(op, n, newa, newtxn, newidx, {i \in big : newa[i] # NoRow})
 StepT(op, n, newa, newtxn) == StepX(op, n, newa, newtxn, idx)
 Step(op, n, newa) == StepT(op, n, newa, txn)
 
@@ -85,19 +90,33 @@ UpdateRange == \E lo \in {1, 8, 60, 64, 100, 128, 200, 256}, len \in Lens :
                 /\ hit # {}
                 /\ Step([k |-> "update_range", lo |-> lo, hi |-> lo + len - 1], Card(hit), [i \in Ids |-> IF i \in hit THEN a[i] + 1 ELSE a[i]])
 Reopen == txn = <<>> /\ Step([k |-> "reopen"], 0, a)
-Begin == WithTxn /\ txn = <<>> /\ StepT([k |-> "begin"], 0, a, <<a>>)
+Begin == WithTxn /\ txn = <<>> /\ StepT([k |-> "begin"], 0, a, <<[a |-> a, big |-> big]>>)
 Commit == txn # <<>> /\ StepT([k |-> "commit"], 0, a, <<>>)
-Rollback == txn # <<>> /\ StepT([k |-> "rollback"], 0, txn[1], <<>>)
+Rollback == txn # <<>> /\ StepY([k |-> "rollback"], 0, txn[1].a, <<>>, idx, txn[1].big)
+\* UPDATE w SET pad = <3000 bytes> / <200 bytes> WHERE id BETWEEN lo AND hi: the value moves out of line / back (C05, large values);
+\* not while an index on pad exists (a 3000-byte index key is another matter)
+PadGrow == WithPad /\ "pad" \notin idx /\ \E lo \in {1, 8, 60, 64, 100, 128, 200, 256}, len \in {1, 8, 40, 150} :
+                LET hit == InRange(lo, lo + len - 1) IN
+                /\ hit # {} /\ ~(hit \subseteq big)
+                /\ StepY([k |-> "pad_grow", lo |-> lo, hi |-> lo + len - 1], Card(hit), a, txn, idx, big \cup hit)
+PadShrink == WithPad /\ "pad" \notin idx /\ \E lo \in {1, 8, 60, 64, 100, 128, 200, 256}, len \in {1, 8, 40, 150} :
+                LET hit == InRange(lo, lo + len - 1) IN
+                /\ hit \cap big # {}
+                /\ StepY([k |-> "pad_shrink", lo |-> lo, hi |-> lo + len - 1], Card(hit), a, txn, idx, big \ hit)
 
 \* DDL on the populated table: no row, no count and no query result changes (the model state is untouched); what
 \* changes is the access path the implementation may take from then on - and the new index must hold every row
-CreateIndex(c) == WithDDL /\ txn = <<>> /\ c \notin idx /\ StepX([k |-> "create_index", col |-> c], 0, a, txn, idx \cup {c})
+\* DELETE FROM w WHERE LENGTH(pad) > 1000: a predicate over the out-of-line values decides which rows go
+DeleteBig == WithPad /\ big # {} /\ StepX([k |-> "delete_big"], Card(big), [i \in Ids |-> IF i \in big THEN NoRow ELSE a[i]], txn, idx)
+CreateIndex(c) == WithDDL /\ txn = <<>> /\ c \notin idx /\ (c = "pad" => big = {}) /\ StepX([k |-> "create_index", col |-> c], 0, a, txn, idx \cup {c})
 DropIndex(c) == WithDDL /\ txn = <<>> /\ c \in idx /\ StepX([k |-> "drop_index", col |-> c], 0, a, txn, idx \ {c})
-DDL == \E c \in {"a", "pad", "c"} : (\E w \in 1..(IF Card(Present) >= 100 THEN 100 ELSE 5) : CreateIndex(c)) \/ (\E w \in 1..10 : DropIndex(c))
+DDL == \E c \in {"a", "pad", "c"} : (\E w \in 1..4 : CreateIndex(c)) \/ (\E w \in 1..2 : DropIndex(c))
 FillRun == FALSE
 
-Next == DDL \/ FillRun \/ InsertRun \/ InsertRun \/ DeleteRange \/ DeleteEq \/ UpdateRange \/ (\E w \in 1..40 : Reopen)
+LaterNext == DDL \/ FillRun \/ (\E w \in 1..3 : PadGrow) \/ PadShrink \/ DeleteBig \/ InsertRun \/ InsertRun \/ DeleteRange \/ DeleteEq \/ UpdateRange \/ (\E w \in 1..(IF WithDDL THEN 6 ELSE 40) : Reopen)
         \/ (\E w \in 1..160 : Begin) \/ (\E w \in 1..40 : Commit) \/ (\E w \in 1..40 : Rollback) \/ InsertBigInTxn
+\* with WithDDL every behaviour begins by creating one of the indexes on the prefilled table
+Next == IF WithDDL /\ nops = 0 THEN \E c \in {"a", "pad", "c"} : CreateIndex(c) ELSE LaterNext
 Spec == Init /\ [][Next]_vars
 
 \* the model's own sanity: counts are consistent with the point view
